@@ -35,7 +35,10 @@ Variable cap : nat.
 Variable sw : bool.                            (* the destination implements io.StringWriter *)
 Variable flusher : bool.                       (* the destination implements http.Flusher *)
 Variable esc : bytes -> bytes.
-Variable env : N -> bytes * option N.
+Variable env : list nat -> N -> bytes * option N.
+Variable benv : list nat -> N -> bool.
+Variable senv : list nat -> N -> nat.
+Variable cnt : list nat -> N -> nat.
 Variable cancel : option N.
 
 Notation worldT := (world sink_st).
@@ -81,23 +84,31 @@ Definition run_op (o : fop) (st : rstate) : rstate * option err :=
   end.
 
 (* a component rendered with the shared buffer as its writer *)
-Fixpoint run (n : node) (st : rstate) : rstate * option err :=
+(* generator.go writeIfExpression / writeSwitchExpression / writeConditionalAttribute / writeBoolExpressionAttribute:
+   the condition as Go evaluates it *)
+Definition test (path : list nat) (c : cond) : bool :=
+  match c with
+  | CBool id => benv path id
+  | CCase id k => Nat.eqb (senv path id) k
+  end.
+
+Fixpoint run (n : node) (path : list nat) (st : rstate) : rstate * option err :=
   match n with
   | Lit s => do_write sw st s                                   (* runtime/watchmode.go WriteString -> io.WriteString *)
   | Expr id f l c =>
-      match env id with
+      match env path id with
       | (_, Some x) => (st, Some (ETempl f l c (EExpr x)))       (* writeExpressionErrorHandler *)
       | (v, None) => do_write sw st (esc v)
       end
   | Templ g body =>
       if g then match cancel with
                 | Some c => (st, Some (ECtx c))
-                | None => seq_r node run body st                 (* GetBuffer: is a buffer, shared, no release *)
+                | None => seq_r node (fun x => run x path) body st   (* GetBuffer: is a buffer, shared, no release *)
                 end
-      else seq_r node run body st
-  | Join cs => seq_r node run cs st                              (* join.go *)
+      else seq_r node (fun x => run x path) body st
+  | Join cs => seq_r node (fun x => run x path) cs st            (* join.go *)
   | Flush ch =>                                                  (* flush.go: children, then w.(flusherError).Flush() *)
-      let '(st1, e) := seq_r node run ch st in
+      let '(st1, e) := seq_r node (fun x => run x path) ch st in
       match e with
       | Some _ => (st1, e)
       | None => buffer_flush st1
@@ -108,6 +119,12 @@ Fixpoint run (n : node) (st : rstate) : rstate * option err :=
                end
   | Func ops => seq_r fop run_op ops st
   | Nop => (st, None)
+  | If c thn els =>                                              (* if c { thn } else { els }, every statement checked *)
+      if test path c then seq_r node (fun x => run x path) thn st
+      else seq_r node (fun x => run x path) els st
+  | For id body =>                                               (* generator.go writeForExpression: the body once per element;
+                                                                    `return err` inside the body leaves the loop and the template *)
+      seq_r nat (fun k => seq_r node (fun x => run x (k :: path)) body) (seq 0 (cnt path id)) st
   end.
 
 (* sync.Pool: Get returns any buffer put back earlier, or a new one *)
@@ -129,7 +146,7 @@ Definition render_top (reset : bool) (pool : list bw) (choice : nat) (g : bool) 
   | None =>
       let '(b0, pool1) := acquire pool choice in
       let b := if reset then bw_reset b0 else b0 in
-      let '(st1, e) := seq_r node run body {| rb := b; rw := w0 |} in
+      let '(st1, e) := seq_r node (fun x => run x []) body {| rb := b; rw := w0 |} in
       let '(st2, fe) := buffer_flush st1 in                         (* deferred ReleaseBuffer *)
       (match e with Some x => Some x | None => fe end, rw st2, rb st2 :: pool1)
   end.
@@ -150,7 +167,10 @@ Variable sw : bool.
 Variable flusher : bool.
 Variable esc : bytes -> bytes.
 
-Record job := { j_env : N -> bytes * option N;
+Record job := { j_env : list nat -> N -> bytes * option N;
+                j_benv : list nat -> N -> bool;
+                j_senv : list nat -> N -> nat;
+                j_cnt : list nat -> N -> nat;
                 j_cancel : option N;
                 j_guard : bool;
                 j_body : list node;
@@ -170,12 +190,12 @@ Definition run_job (reset_acq reset_rel : bool) (ps : pools) (j : job) : obs * p
   if j_html j then
     (* runtime.go ToGoHTML: b := GetBuffer(); defer ReleaseBuffer(b); err = c.Render(ctx, b); s = b.String() *)
     let '(c, bp1) := acquire2 (snd ps) (j_choice2 j) in
-    let '(e, w, rp) := render_top unit buffer_sink cap true false esc (j_env j) (j_cancel j) reset_acq (fst ps) (j_choice j)
+    let '(e, w, rp) := render_top unit buffer_sink cap true false esc (j_env j) (j_benv j) (j_senv j) (j_cnt j) (j_cancel j) reset_acq (fst ps) (j_choice j)
                                   (j_guard j) (j_body j) {| sst := tt; recv := c; log := []; marks := [] |} in
     ({| o_err := e; o_out := match e with None => recv w | Some _ => [] end; o_log := []; o_marks := [] |},
      (rp, (if reset_rel then [] else recv w) :: bp1))
   else
-    let '(e, w, rp) := render_top sink_st sink cap sw flusher esc (j_env j) (j_cancel j) reset_acq (fst ps) (j_choice j)
+    let '(e, w, rp) := render_top sink_st sink cap sw flusher esc (j_env j) (j_benv j) (j_senv j) (j_cnt j) (j_cancel j) reset_acq (fst ps) (j_choice j)
                                   (j_guard j) (j_body j) {| sst := j_sink0 j; recv := []; log := []; marks := [] |} in
     ({| o_err := e; o_out := recv w; o_log := log w; o_marks := marks w |}, (rp, snd ps)).
 
